@@ -13,7 +13,8 @@
     harness decodes it (NaiveDate::from_yo_opt etc.). *)
 From Coq Require Import ZArith List Bool String.
 From V Require Import Base.Int Base.IO Base.Utf8 Model.Scan Model.DateTime Model.C10 Spec.Gregorian Spec.Rfc3339
-  Proofs.Utf8 Proofs.Scan Proofs.C10 Proofs.C10Writer Proofs.C10Main.
+  Proofs.Utf8 Proofs.Scan Proofs.C10 Proofs.C10Writer Proofs.C10Main Proofs.C10Holds.
+From V Require Judge.C10.
 Import ListNotations.
 Open Scope Z_scope.
 
@@ -142,3 +143,74 @@ Example C10_accept_example : accepts B"1990-12-31T23:59:60Z" = Some (1990, 365, 
   /\ accepts B"2015-02-18T23:16:09+24:00" = None /\ utf8_valid B"1990-12-31T23:59:60Z" = true.
 Proof. exact accept_example. Qed.
 Print Assumptions C10_accept_example.
+
+(** ** Every dispatcher op (coverage/OPS_THEOREMS_C10.md) *)
+(* which model function answers each of the four ops of [Model.C10.run]; an argument list of another
+   shape, a value that does not decode, a precision outside 0..4 or a flag outside 0/1 is BADARGS *)
+Theorem C10_dispatch : forall args,
+  run (B"r3.parse") args =
+    match args with [VStr s] => if utf8_valid s then r3_parse s else VBad | _ => VBad end /\
+  run (B"r3.write") args =
+    match args with
+    | [z; VInt sf; VInt uz] =>
+        match dec_dtz z with
+        | Some a => if (0 <=? sf) && (sf <=? 4) && ((uz =? 0) || (uz =? 1))
+                    then val_of_R VStr (to_rfc3339_opts a sf (uz =? 1)) else VBad
+        | None => VBad end
+    | _ => VBad end /\
+  run (B"r3.show") args =
+    match args with [z] => match dec_dtz z with Some a => val_of_R VStr (to_rfc3339 a) | None => VBad end | _ => VBad end /\
+  run (B"r3.rt") args =
+    match args with
+    | [z; VInt sf; VInt uz] =>
+        match dec_dtz z with
+        | Some a => if (0 <=? sf) && (sf <=? 4) && ((uz =? 0) || (uz =? 1))
+                    then r3_rt a sf (uz =? 1) else VBad
+        | None => VBad end
+    | _ => VBad end.
+Proof. exact dispatch. Qed.
+Print Assumptions C10_dispatch.
+
+(* DateTime::to_rfc3339 is to_rfc3339_opts(SecondsFormat::AutoSi, false), for EVERY value (any year,
+   any offset, also where either traps): op r3.show is op r3.write with arguments 4 0 *)
+Theorem C10_to_rfc3339_is_opts : forall a, to_rfc3339 a = to_rfc3339_opts a 4 false.
+Proof. exact to_rfc3339_is_opts. Qed.
+Print Assumptions C10_to_rfc3339_is_opts.
+Theorem C10_show_is_write : forall z, run (B"r3.show") [z] = run (B"r3.write") [z; VInt 4; VInt 0].
+Proof. exact show_is_write. Qed.
+Print Assumptions C10_show_is_write.
+
+(* op r3.rt is the reader applied to the writer's text, wherever the writer returns *)
+Theorem C10_rt_is_parse_of_write : forall z sf uz t,
+  run (B"r3.write") [z; VInt sf; VInt uz] = VStr t -> utf8_valid t = true ->
+  run (B"r3.rt") [z; VInt sf; VInt uz] = run (B"r3.parse") [VStr t].
+Proof. exact rt_is_parse_of_write. Qed.
+Print Assumptions C10_rt_is_parse_of_write.
+
+(* the reader's target is DateTime<FixedOffset> (the only parse_from_rfc3339 of chrono 0.4.40); the
+   DateTime<Utc> reading of a result ([.with_timezone(&Utc)], what `s.parse::<DateTime<Utc>>()` does)
+   is the same instant with offset 0 *)
+Theorem C10_parse_utc_target : forall a y o s f off, tuple_of a = (y, o, s, f, off) ->
+  tuple_of (with_timezone a 0) = (y, o, s, f, 0).
+Proof. exact parse_utc_target. Qed.
+Print Assumptions C10_parse_utc_target.
+
+(** ** C10_holds: the property as the independent judge states it (Judge/C10.v: the recogniser of
+    Spec/Rfc3339.v, Spec/Gregorian.v; imports nothing of the model) holds of the model on EVERY case
+    line of all four ops -- every byte string for r3.parse (not UTF-8: outside the domain), every
+    value / precision / flag for the writer ops: whenever the judge has an opinion it accepts the
+    model's output.  No side condition. *)
+Theorem C10_holds : forall op args,
+  Judge.C10.judge op args (run op args) <> JSkip -> Judge.C10.judge op args (run op args) = JOk.
+Proof. exact C10_holds. Qed.
+Print Assumptions C10_holds.
+(* the judge does have an opinion on each op (accepted string, refused string, the three writer ops) *)
+Example C10_holds_inhabited :
+  Judge.C10.judge (B"r3.parse") [VStr (B"1990-12-31T23:59:60Z")] (run (B"r3.parse") [VStr (B"1990-12-31T23:59:60Z")]) = JOk /\
+  Judge.C10.judge (B"r3.parse") [VStr (B"2015-02-18T23:16:09+24:00")] (run (B"r3.parse") [VStr (B"2015-02-18T23:16:09+24:00")]) = JOk /\
+  (let z := value 1996 354 2397 500000000 (-28800) in
+   Judge.C10.judge (B"r3.write") [z; VInt 4; VInt 1] (run (B"r3.write") [z; VInt 4; VInt 1]) = JOk /\
+   Judge.C10.judge (B"r3.show") [z] (run (B"r3.show") [z]) = JOk /\
+   Judge.C10.judge (B"r3.rt") [z; VInt 1; VInt 0] (run (B"r3.rt") [z; VInt 1; VInt 0]) = JOk).
+Proof. exact holds_examples. Qed.
+Print Assumptions C10_holds_inhabited.
